@@ -5,7 +5,9 @@ import Golib.Model.C02Ptr
 /-
 C02 driver.  Header `@ C02 <kind> <ktype> <cmp> <dump|nodump>`:
   kind  zero = `var s SkipList[K,int]`, new = `NewSkipList`, cmp = `NewSkipListWithCmp`
-  ktype int | str (keys as hex bytes)
+  ktype int | str (keys as hex bytes) | ptr (*int compared by dereferencing; cmp kind only) |
+        f64 (float64 keys of SkipList: integers, halves, -0, +Inf, -Inf; zero/new kinds only) |
+        pair (struct{A,B int} keys `a,b`; cmp kind only: lex | first | rev)
   cmp   nat | rev | mod3 (int: key mod 3, then value) | len (str: length, then bytes)
         diff (a-b) | scaled (7(a-b)) | sgnhash (sign·(1+hash)) | bytesdiff (str: byte/length difference):
         the natural order with results of arbitrary magnitude; halfdiff: `half` with magnitudes
@@ -21,6 +23,7 @@ Operations (values are ints, `r` is the word the random source returns):
   seq k (slot k := s.All(), k < 4) | seqrange k n (range the held Seq, stop after n) |
   seqtwice k j (range with break after j, then fully) | seqnest k j (nested over itself, j outer
   rounds) | pull2 k a (two alternating iter.Pull2 cursors, the first stopped after a values)
+  obj k (k < 4: make list k of the case's four independent lists the current one)
   initcmp <name> (SkipListWithCmp only: `s.Init(<comparator name>)` — re-configuration with another comparator)
   fill lo hi step seed nat|tall | rmrange lo hi step asc|desc|stride s   (int keys; see below)
 Every answer is `<result> | L=<level> n=<len> <towers>` (`dump`), `<result> | L= n= lens=<chain lengths>`
@@ -36,6 +39,52 @@ structure KeyIO (K : Type) where
 
 def intIO : KeyIO Int := ⟨String.toInt?, toString, some id⟩
 def strIO : KeyIO (List Nat) := ⟨unhex, hex, none⟩
+
+/-! Further key types (type matrix).
+* `ptr`: `*int` keys compared by dereferencing — in the model a pointer key is the int it points
+  to (the harness makes one pointer per token); the zero value of the key type (nil) is not a key.
+* `f64`: `float64` keys of `SkipList` (built-in `<`, `==`).  Tokens: integers, halves (`2.5`),
+  `-0`, `+Inf`, `-Inf`.  A key is `(2·value, isNegZero)`; the built-in order ignores the sign of
+  zero: `-0` and `0` are distinguishable keys that compare equal (a weak order: the stored
+  representation is the one reported).  NaN is excluded: `<`/`==` on NaN is not a weak order
+  (`NaN == NaN` is false — a NaN key can be Set but never found or removed, every Set adds another
+  node); the property's "total-order" clause does not cover it and neither model nor harness
+  drive it.
+* `pair`: struct keys `struct{A, B int}` through `SkipListWithCmp`, token `a,b`. -/
+
+def infQ : Int := 4000000000000000000000
+
+def f64Parse (t : String) : Option (Int × Bool) :=
+  if t = "-0" then some (0, true)
+  else if t = "+Inf" then some (infQ, false)
+  else if t = "-Inf" then some (-infQ, false)
+  else match t.splitOn "." with
+    | [a] => a.toInt?.map fun v => (2 * v, false)
+    | [a, "5"] =>
+      match a.toInt? with
+      | some v => some (if a.startsWith "-" then 2 * v - 1 else 2 * v + 1, false)
+      | none => none
+    | _ => none
+
+def f64Show (k : Int × Bool) : String :=
+  if k.2 then "-0"
+  else if k.1 = infQ then "+Inf" else if k.1 = -infQ then "-Inf"
+  else if k.1 % 2 = 0 then toString (k.1 / 2)
+  else
+    -- odd: value = k/2 with a half; Go prints -0.5 as "-0.5", 2.5 as "2.5"
+    let a := k.1.natAbs / 2
+    (if k.1 < 0 then "-" else "") ++ toString a ++ ".5"
+
+def f64IO : KeyIO (Int × Bool) := ⟨f64Parse, f64Show, some fun i => (2 * i, false)⟩
+
+def pairParse (t : String) : Option (Int × Int) :=
+  match t.splitOn "," with
+  | [a, b] => match a.toInt?, b.toInt? with
+    | some a, some b => some (a, b)
+    | _, _ => none
+  | _ => none
+
+def pairIO : KeyIO (Int × Int) := ⟨pairParse, fun k => toString k.1 ++ "," ++ toString k.2, none⟩
 
 /-! Bulk operations (large lists in short cases).
 `fill lo hi step seed kind`: `SetNx(k, 1000+i, w_i)` for `k = lo, lo+step, … < hi`; answers the
@@ -98,6 +147,21 @@ def cmpHalf (a b : Int) : Int := cmpInt (a / 2) (b / 2)
 
 /-- A weak order on strings: compares the lengths only. -/
 def cmpLenOnly (a b : List Nat) : Int := cmpInt a.length b.length
+
+/-- `float64` under `<` / `==`: the sign of zero is ignored. -/
+def cmpF64 (a b : Int × Bool) : Int := cmpInt a.1 b.1
+
+/-- Struct keys, lexicographic. -/
+def cmpPairLex (a b : Int × Int) : Int := if a.1 ≠ b.1 then cmpInt a.1 b.1 else cmpInt a.2 b.2
+
+/-- Struct keys compared by their first field only (distinguishable keys compare equal). -/
+def cmpPairFirst (a b : Int × Int) : Int := cmpInt a.1 b.1
+
+def lowerByte (b : Nat) : Nat := if 65 ≤ b ∧ b ≤ 90 then b + 32 else b
+
+/-- Case-insensitive (ASCII) string order: `"Banana"` and `"banana"` are one binding; the stored
+representation is the one every enumeration reports. -/
+def cmpFold (a b : List Nat) : Int := cmpBytes (a.map lowerByte) (b.map lowerByte)
 
 variable {K : Type} [DecidableEq K]
 
@@ -465,7 +529,11 @@ def intCmp? (c : String) : Option (Int → Int → Int) :=
 def strCmp? (c : String) : Option (List Nat → List Nat → Int) :=
   if c = "nat" then some cmpBytes else if c = "rev" then some (fun a b => cmpBytes b a)
   else if c = "len" then some cmpLen else if c = "lenonly" then some cmpLenOnly
-  else if c = "bytesdiff" then some cmpBytesDiff else none
+  else if c = "bytesdiff" then some cmpBytesDiff else if c = "fold" then some cmpFold else none
+
+def pairCmp? (c : String) : Option (Int × Int → Int × Int → Int) :=
+  if c = "lex" then some cmpPairLex else if c = "first" then some cmpPairFirst
+  else if c = "rev" then some (fun a b => cmpPairLex b a) else none
 
 /-- `tbl`: the comparator table for `initcmp <name>` = `s.Init(<other comparator>)` on a
 `SkipListWithCmp` (re-configuration: everything is reset and the NEW comparator rules from then
@@ -506,7 +574,7 @@ def runWith (io : KeyIO K) (tbl : String → Option (K → K → Int)) (cfg : Cf
 
 def bad (ops : List String) : List String := "bad-op" :: ops.map fun _ => "bad-op"
 
-def runCase (hdr : List String) (ops : List String) : List String :=
+def runCaseOne (hdr : List String) (ops : List String) : List String :=
   match hdr with
   | [kind, kt, c, d] =>
     if d ≠ "dump" ∧ d ≠ "nodump" ∧ d ≠ "vdump" then bad ops else
@@ -515,9 +583,10 @@ def runCase (hdr : List String) (ops : List String) : List String :=
       if c ≠ "nat" then bad ops
       else if kt = "int" then runWith intIO intCmp? ⟨cmpInt, true, 0, 0, true⟩ kind dump ops
       else if kt = "str" then runWith strIO strCmp? ⟨cmpBytes, true, [], 0, true⟩ kind dump ops
+      else if kt = "f64" then runWith f64IO (fun _ => none) ⟨cmpF64, true, (0, false), 0, true⟩ kind dump ops
       else bad ops
     else if kind = "cmp" then
-      if kt = "int" then
+      if kt = "int" ∨ kt = "ptr" then
         match intCmp? c with
         | some f => runWith intIO intCmp? ⟨f, false, 0, 0, true⟩ kind dump ops
         | none => bad ops
@@ -525,8 +594,60 @@ def runCase (hdr : List String) (ops : List String) : List String :=
         match strCmp? c with
         | some f => runWith strIO strCmp? ⟨f, false, [], 0, true⟩ kind dump ops
         | none => bad ops
+      else if kt = "pair" then
+        match pairCmp? c with
+        | some f => runWith pairIO pairCmp? ⟨f, false, (0, 0), 0, true⟩ kind dump ops
+        | none => bad ops
       else bad ops
     else bad ops
   | _ => bad ops
 
+/-! ### several lists in one case
+
+`obj k` (k < 4) makes list k the current one; all four lists are created by the header (same
+kind, key type and comparator) and every other line acts on the current list.  The lists are
+independent objects: the model runs each list's own lines on its own (`runCaseOne`) and puts the
+answers back in the order of the case. -/
+
+def objLine? (l : String) : Option (Option Nat) :=
+  match toks l with
+  | ["obj", k] => some (match k.toNat? with
+      | some n => if n < 4 then some n else none
+      | none => none)
+  | "obj" :: _ => some none
+  | _ => none
+
+/-- The lines of object `k` (`cur` = the current object). -/
+def ownLines (k : Nat) : Nat → List String → List String
+  | _, [] => []
+  | cur, l :: ls =>
+    match objLine? l with
+    | some (some n) => ownLines k n ls
+    | some none => ownLines k cur ls
+    | none => if cur = k then l :: ownLines k cur ls else ownLines k cur ls
+
+/-- Put the per-object answers back in case order. -/
+def mergeOuts : Nat → List String → (Nat → List String) → List String
+  | _, [], _ => []
+  | cur, l :: ls, outs =>
+    match objLine? l with
+    | some (some n) => "ok" :: mergeOuts n ls outs
+    | some none => "bad-op" :: mergeOuts cur ls outs
+    | none =>
+      match outs cur with
+      | [] => "bad-op" :: mergeOuts cur ls outs          -- cannot happen: one answer per line
+      | o :: rest => o :: mergeOuts cur ls (fun j => if j = cur then rest else outs j)
+
+def runCase (hdr : List String) (ops : List String) : List String :=
+  if ops.all (fun l => (objLine? l).isNone) then runCaseOne hdr ops
+  else
+    let run (k : Nat) : List String := runCaseOne hdr (ownLines k 0 ops)
+    let r0 := run 0
+    let r1 := run 1
+    let r2 := run 2
+    let r3 := run 3
+    let outs (k : Nat) : List String := (if k = 0 then r0 else if k = 1 then r1 else if k = 2 then r2 else r3).drop 1
+    r0.headD "bad-op" :: mergeOuts 0 ops outs
+
 end Golib.C02
+
